@@ -263,10 +263,11 @@ func (r *Report) Finish(evidencePath string, known []KnownFinding, cmdline strin
 			fmt.Printf("KNOWN-FINDING: property=%s %s [%s]\n", r.Prop, k.What, k.Key)
 		}
 	}
+	vpath := strings.TrimSuffix(evidencePath, ".json") + ".violations.json"
 	if nviol == 0 {
+		_ = os.Remove(vpath) // a stale list from an earlier failing run must not survive a passing one
 		return 0
 	}
-	vpath := strings.TrimSuffix(evidencePath, ".json") + ".violations.json"
 	_ = writeJSON(vpath, violationOut{Property: r.Prop, Tier: r.Tier, Fatal: r.Fatal, Items: viol,
 		Replay: "static check: re-run `" + cmdline + "` on the same tree; each item names file:line, rule and construct"})
 	for _, f := range r.Fatal {
